@@ -515,17 +515,140 @@ FIXED_WITNESSES = [
 ]
 
 
+XSH = '<?xml version="1.0" encoding="UTF-8"?>\n<xs:schema xmlns:xs="http://www.w3.org/2001/XMLSchema"'
+
+# witnesses of OPEN findings: deterministic minimal programs that run with every check, so that every listed
+# defect is re-found (KNOWN-FINDING line) whatever the random schemas of the run happen to contain
+OPEN_WITNESSES = [
+    {"name": "F2-optional-nillable-absent", "root": "doc", "sources": {"main.xsd": XSH + """>
+  <xs:element name="doc"><xs:complexType><xs:sequence>
+    <xs:element name="x.y" type="xs:float" minOccurs="0" nillable="true"/>
+    <xs:element name="k" type="xs:int"/>
+  </xs:sequence></xs:complexType></xs:element>
+</xs:schema>
+"""}, "docs": ["<doc><k>1</k></doc>"]},
+    {"name": "F3-empty-list-element", "root": "note", "sources": {"main.xsd": XSH + """>
+  <xs:element name="note"><xs:complexType><xs:sequence>
+    <xs:element name="Tag"><xs:simpleType><xs:list itemType="xs:double"/></xs:simpleType></xs:element>
+    <xs:element name="kind" type="xs:date"/>
+  </xs:sequence></xs:complexType></xs:element>
+</xs:schema>
+"""}, "docs": ["<note><Tag/><kind>2000-10-31</kind></note>"]},
+    {"name": "F4-union-priority", "root": "r", "sources": {"main.xsd": XSH + """>
+  <xs:element name="r"><xs:complexType><xs:sequence>
+    <xs:element name="n1"><xs:simpleType><xs:union memberTypes="xs:gYear xs:double"/></xs:simpleType></xs:element>
+  </xs:sequence></xs:complexType></xs:element>
+</xs:schema>
+"""}, "docs": ["<r><n1>1999</n1></r>"]},
+    {"name": "F5-compound-choice-by-value", "root": "r", "sources": {"main.xsd": XSH + """>
+  <xs:element name="r"><xs:complexType><xs:sequence>
+    <xs:choice maxOccurs="unbounded">
+      <xs:element name="Origin" type="xs:decimal"/>
+      <xs:element name="f" type="xs:unsignedInt"/>
+    </xs:choice>
+  </xs:sequence></xs:complexType></xs:element>
+</xs:schema>
+"""}, "docs": ["<r><f>0</f><Origin>1.5</Origin><f>7</f></r>"]},
+    {"name": "F7-root-xsi-type", "root": "doc", "sources": {"main.xsd": XSH + """>
+  <xs:element name="doc" type="Base"/>
+  <xs:complexType name="Base"><xs:sequence><xs:element name="p" type="xs:string"/></xs:sequence></xs:complexType>
+  <xs:complexType name="D"><xs:complexContent><xs:extension base="Base"><xs:sequence>
+    <xs:element name="q" type="xs:int"/></xs:sequence></xs:extension></xs:complexContent></xs:complexType>
+</xs:schema>
+"""}, "docs": ['<doc xmlns:xsi="http://www.w3.org/2001/XMLSchema-instance" xsi:type="D"><p>x</p><q>1</q></doc>']},
+    {"name": "F8-frozen-tokens-in-mixed", "root": "m", "variants": [{"frozen": True}, {"frozen": True, "slots": True}],
+     "sources": {"main.xsd": XSH + """>
+  <xs:element name="m"><xs:complexType mixed="true"><xs:sequence>
+    <xs:element name="x.y" minOccurs="0"><xs:simpleType><xs:list itemType="xs:boolean"/></xs:simpleType></xs:element>
+  </xs:sequence></xs:complexType></xs:element>
+</xs:schema>
+"""}, "docs": ["<m> a <x.y>true true</x.y>t</m>"]},
+    {"name": "F9-all-group-order", "root": "r", "sources": {"main.xsd": XSH + """>
+  <xs:element name="r"><xs:complexType><xs:all>
+    <xs:element name="h" type="xs:int" minOccurs="0"/>
+    <xs:element name="f" type="xs:string" minOccurs="0"/>
+    <xs:element name="d" type="xs:date" minOccurs="0"/>
+  </xs:all></xs:complexType></xs:element>
+</xs:schema>
+"""}, "docs": ["<r><h>1</h><d>2001-01-01</d><f>x</f></r>"]},
+    {"name": "F10-repeated-name-order", "root": "m", "sources": {"main.xsd": XSH + """>
+  <xs:element name="b" type="xs:string"/>
+  <xs:element name="c" type="xs:string" substitutionGroup="b"/>
+  <xs:element name="m"><xs:complexType><xs:sequence>
+    <xs:element ref="b" minOccurs="0"/>
+    <xs:element name="name" type="xs:int"/>
+    <xs:element ref="c" minOccurs="2" maxOccurs="unbounded"/>
+  </xs:sequence></xs:complexType></xs:element>
+</xs:schema>
+"""}, "docs": ["<m><c>0</c><name>1</name><c>2</c><c>3</c></m>"]},
+    {"name": "F11-namespaces-style-shadowing", "root": "envelope", "variants": [{"structure_style": "namespaces"}, {"structure_style": "namespaces"}],
+     "sources": {"main.xsd": XSH + """ xmlns:a="http://example.com/ns/a">
+  <xs:import namespace="http://example.com/ns/a" schemaLocation="part1.xsd"/>
+  <xs:element name="envelope"><xs:complexType><xs:sequence>
+    <xs:element name="d" type="xs:time"/><xs:element ref="a:item" minOccurs="0"/>
+  </xs:sequence></xs:complexType></xs:element>
+</xs:schema>
+""", "part1.xsd": XSH + """ targetNamespace="http://example.com/ns/a" elementFormDefault="qualified">
+  <xs:element name="item"><xs:complexType><xs:sequence><xs:element name="v" type="xs:int"/></xs:sequence></xs:complexType></xs:element>
+</xs:schema>
+"""}, "docs": ['<envelope><d>12:00:00</d><a:item xmlns:a="http://example.com/ns/a"><a:v>1</a:v></a:item></envelope>']},
+    {"name": "F12-cross-file-substitution-cycle", "root": "{urn:t}root", "sources": {"main.xsd": XSH + """ xmlns:t="urn:t" targetNamespace="urn:t" elementFormDefault="qualified">
+  <xs:include schemaLocation="part1.xsd"/>
+  <xs:element name="special" type="t:ItemType" substitutionGroup="t:Item"/>
+  <xs:element name="root"><xs:complexType><xs:sequence>
+    <xs:element ref="t:holder"/>
+  </xs:sequence></xs:complexType></xs:element>
+</xs:schema>
+""", "part1.xsd": XSH + """ xmlns:t="urn:t" targetNamespace="urn:t" elementFormDefault="qualified">
+  <xs:complexType name="ItemType"><xs:sequence><xs:element name="v" type="xs:int"/></xs:sequence></xs:complexType>
+  <xs:element name="Item" type="t:ItemType"/>
+  <xs:element name="holder"><xs:complexType><xs:sequence><xs:element ref="t:Item" maxOccurs="unbounded"/></xs:sequence></xs:complexType></xs:element>
+</xs:schema>
+"""}, "docs": ['<root xmlns="urn:t"><holder><Item><v>1</v></Item><special><v>2</v></special></holder></root>']},
+    {"name": "F13-default-on-enum-list-element", "root": "r", "sources": {"main.xsd": XSH + """>
+  <xs:simpleType name="color-type"><xs:restriction base="xs:int"><xs:enumeration value="598"/></xs:restriction></xs:simpleType>
+  <xs:element name="r"><xs:complexType><xs:sequence>
+    <xs:element name="item" type="color-type" minOccurs="0" maxOccurs="unbounded" default="598"/>
+  </xs:sequence></xs:complexType></xs:element>
+</xs:schema>
+"""}, "docs": ["<r><item>598</item></r>"]},
+    {"name": "F14-other-wildcard-parent-namespace", "root": "{http://example.com/ns/a}envelope", "sources": {"main.xsd": XSH + """ xmlns:t1="urn:t" targetNamespace="http://example.com/ns/a" elementFormDefault="qualified">
+  <xs:import namespace="urn:t" schemaLocation="part1.xsd"/>
+  <xs:element name="envelope" type="t1:ItemType"/>
+</xs:schema>
+""", "part1.xsd": XSH + """ targetNamespace="urn:t" elementFormDefault="qualified">
+  <xs:complexType name="ItemType"><xs:sequence>
+    <xs:element name="name" type="xs:string"/>
+    <xs:any namespace="##other" processContents="lax" minOccurs="0" maxOccurs="unbounded"/>
+  </xs:sequence></xs:complexType>
+</xs:schema>
+"""}, "docs": ['<a:envelope xmlns:a="http://example.com/ns/a" xmlns:t="urn:t"><t:name>x</t:name><a:w/></a:envelope>']},
+    {"name": "F15-unnest-mixed-wrapper", "root": "r", "variants": [{"unnest_classes": True}, {"unnest_classes": True}],
+     "sources": {"main.xsd": XSH + """>
+  <xs:element name="r"><xs:complexType mixed="true"><xs:sequence>
+    <xs:element name="kind" type="xs:int" minOccurs="0" fixed="1278272512"/>
+    <xs:element name="d" type="xs:integer"/>
+    <xs:element name="note" type="xs:time" minOccurs="0"/>
+    <xs:element name="e" type="xs:time"/>
+  </xs:sequence></xs:complexType></xs:element>
+</xs:schema>
+"""}, "docs": ["<r>t<kind>1278272512</kind>u<d>5</d><e>12:00:00</e></r>"]},
+]
+
+
 def witness_programs():
     out = []
-    for w in FIXED_WITNESSES:
+    for w in FIXED_WITNESSES + OPEN_WITNESSES:
         schema = R.read_schema(w["sources"])
         lx = G.compile_schema(w["sources"])
         for d in w["docs"]:
             ok, err = G.validate(lx, d)
             if not ok:
                 raise RuntimeError(f"witness document of {w['name']} is not schema-valid: {err}")
-        out.append({"m": {"features": ["witness:" + w["name"]], "files": [{"tns": None}]}, "sources": w["sources"], "docs": list(w["docs"]),
-                    "schema": schema, "root": w["root"], "lxml": lx, "witness": w["name"]})
+        files = [{"tns": re.search(r'targetNamespace="([^"]*)"', t).group(1) if "targetNamespace=" in t else None}
+                 for t in w["sources"].values()]
+        out.append({"m": {"features": ["witness:" + w["name"]], "files": files}, "sources": w["sources"], "docs": list(w["docs"]),
+                    "schema": schema, "root": w["root"], "lxml": lx, "witness": w["name"], "variants": w.get("variants")})
     return out
 
 
@@ -567,6 +690,8 @@ def run(ck: Check):
     payload = []
     for i, p in enumerate(programs):
         oa, ob = r.choice(OUTPUT_ONLY), r.choice(OUTPUT_ONLY)
+        if p.get("variants"):
+            oa, ob = p["variants"]
         p["osets"] = [{"name": "plain", "options": {}, "compound": False, "base": None},
                       {"name": "compound", "options": {"compound_fields": True}, "compound": True, "base": None},
                       {"name": "plain+", "options": dict(oa), "compound": False, "base": 0},
@@ -760,6 +885,7 @@ def run(ck: Check):
                 info = {"type": tname, "class": cls_id, "failed": failed, "word": word,
                         "open_decls": ["".join(chr(c) for c in q) for q in opend[ri][pi_][0]],
                         "unbound_nillables": ["".join(chr(c) for c in q) for q in opend[ri][pi_][1]]}
+                rr.setdefault("pair_info", {})[tc[1]] = (tc, info)
                 if not names["content"] and word is not None:
                     witness_jobs.append((rr, tc, info))
                 else:
@@ -780,6 +906,11 @@ def run(ck: Check):
                 stats["docs_failed"] += 1
                 clss = classify_doc(rr, doc, dr, ft, active[di])
                 expl = explained_by_validator(rr, brej[di])
+                if not clss and expl:
+                    # the binding abstract refuses the document at classes whose pairs the validator rejected: the finding
+                    # (if any) is the one of those pairs
+                    pc = [classify_pair(rr, *rr["pair_info"][c]) for c, _ in brej[di] if c in rr.get("pair_info", {})]
+                    clss = sorted({c for c in pc if c})
                 if not clss and os.environ.get("C02_TRIAGE"):
                     clss = [f"TRIAGE-{dr['stage']}-{dr['err']}-{norm_msg(dr['msg'])}-{'+'.join(k for k, v in ft.items() if v)}-{rr['oset']['name']}"]
                 for cls in clss or [("valid-document-rejected-validator-explains" if expl else "valid-document-rejected")]:
